@@ -4,16 +4,22 @@ arguments, later files override earlier ones) into seeded/<id>/meta.json ("verif
 import json, re, sys, glob, os
 V = os.path.dirname(os.path.dirname(os.path.abspath(__file__)))
 res = {}
+extra = {}
 for f in sys.argv[1:]:
     cur = None
+    cross = False
     for l in open(f, errors="replace"):
-        m = re.match(r"== (C\d+)", l)
+        m = re.match(r"== (C\d+(?:-\d+)?)( with C\d+)?", l)
         if m:
-            cur = m.group(1); continue
+            cur = m.group(1); cross = bool(m.group(2)); continue
         m = re.match(r"(C\d+) rc=(\d+) (\d+) violation line\(s\); keys:(.*)", l)
         if m:
             keys = sorted(set(k.strip() for k in re.findall(r"key=(\S+)", m.group(4))))
-            res[cur or m.group(1)] = {"check": m.group(1), "rc": int(m.group(2)), "violation_lines": int(m.group(3)), "keys": keys, "source": os.path.basename(f)}
+            rec = {"check": m.group(1), "rc": int(m.group(2)), "violation_lines": int(m.group(3)), "keys": keys, "source": os.path.basename(f)}
+            if cross:
+                extra.setdefault(cur, {})[m.group(1)] = rec      # another property's check run against this change
+            else:
+                res[cur or m.group(1)] = rec
 rows = []
 for d in sorted(glob.glob(f"{V}/seeded/C*")):
     sid = os.path.basename(d)
@@ -28,6 +34,8 @@ for d in sorted(glob.glob(f"{V}/seeded/C*")):
     meta["confirmed_by_main"] = conf
     if r:
         meta["verif"] = {"ran": f"bin/vmutate seeded/{sid}/patch.diff {r['check']} (quick tier, VERIF_SEED=1, scratch copy of /repo HEAD + patch)", "caught": r["rc"] == 1, "rc": r["rc"], "violation_keys": r["keys"], "note": note}
+        if sid in extra:
+            meta["verif"]["other_checks"] = {k: {"caught": v["rc"] == 1, "violation_keys": v["keys"]} for k, v in extra[sid].items()}
     json.dump(meta, open(mp, "w"), indent=1)
     rows.append((sid, meta.get("property", sid), meta.get("summary", "")[:150].replace("|", "/"), meta.get("needs", "")[:130].replace("|", "/"),
                  "yes" if conf.get("confirmed") else ("partly" if conf else "n/a"),
